@@ -46,6 +46,9 @@ RecsRun == IF st = "None" THEN recs = NoRecs
            ELSE recs = <<(total - since) + RunStart - 1, total - 1>>
 (* alarms only when accuracy decreased *)
 OnlyDown == st # "None" => r * Len(win) > SumSeq(win) * (since - Len(win))
+(* the closed form of a quiet step (STEPD.Quiet) is what Step(1) does on every reachable state that satisfies its precondition *)
+QuietIsStep == [][ (QuietPre /\ Step(1)) => (since' = since + 1 /\ total' = total + 1 /\ r' = r + 1 /\ win' = win /\ st' = "None" /\ recs' = NoRecs) ]_vars
+QuietSeen == ~(QuietPre /\ since >= 2 * cfg.w)       \* (violated = such states are reached: used once to see that the property is not vacuous)
 Shift(rr) == <<IF rr[1] = -1 THEN -1 ELSE rr[1] + off, IF rr[2] = -1 THEN -1 ELSE rr[2] + off>>
 TwinAgree == ~bfresh => /\ bst = st /\ bsince = since /\ btotal + off = total /\ Shift(brecs) = recs
                         /\ bwin = win /\ br = r
